@@ -7,13 +7,17 @@ pub mod c02;
 pub mod c03;
 pub mod c06;
 pub mod c07;
+pub mod c10;
+pub mod c11;
 pub mod c15;
 pub mod c16;
 pub mod c18;
+pub mod c19;
+pub mod c20;
 
 use crate::framework::Run;
 
-pub const ALL: [&str; 8] = ["C01", "C02", "C03", "C06", "C07", "C15", "C16", "C18"];
+pub const ALL: [&str; 12] = ["C01", "C02", "C03", "C06", "C07", "C10", "C11", "C15", "C16", "C18", "C19", "C20"];
 
 pub fn dispatch(id: &str, run: &mut Run) -> Option<&'static str> {
     match id {
@@ -22,9 +26,13 @@ pub fn dispatch(id: &str, run: &mut Run) -> Option<&'static str> {
         "C03" => Some(c03::run(run)),
         "C06" => Some(c06::run(run)),
         "C07" => Some(c07::run(run)),
+        "C10" => Some(c10::run(run)),
+        "C11" => Some(c11::run(run)),
         "C15" => Some(c15::run(run)),
         "C16" => Some(c16::run(run)),
         "C18" => Some(c18::run(run)),
+        "C19" => Some(c19::run(run)),
+        "C20" => Some(c20::run(run)),
         _ => None,
     }
 }
